@@ -792,6 +792,13 @@ theorem step_live {w w' : World} {op : Op} (hl : Live w) (h : w.step op = .ok w'
     split at h
     · injection h with h; subst h; exact setP_live hl _ _
     · cases h
+  | vPhase hd p =>
+    simp only [World.step] at h
+    split at h
+    · split at h
+      · injection h with h; subst h; exact hl
+      · cases h
+    · cases h
   | save => injection h with h; subst h; exact save_live hl
   | restore k => exact restore_live hl h
 
@@ -1000,6 +1007,13 @@ theorem step_wf {w w' : World} {op : Op} (hw : WF w) (h : w.step op = .ok w') : 
     split at h
     · injection h with h; subst h; exact wf_of_eq hw rfl rfl
     · cases h
+  | vPhase hd p =>
+    simp only [World.step] at h
+    split at h
+    · split at h
+      · injection h with h; subst h; exact hw
+      · cases h
+    · cases h
   | save => injection h with h; subst h; exact save_wf hw
   | restore k => exact restore_wf hw h
 
@@ -1111,6 +1125,13 @@ theorem step_snaps {w w' : World} {op : Op} (h : w.step op = .ok w') :
     simp only [World.step] at h
     split at h
     · injection h with h; subst h; exact ⟨[], by simp [World.setP]⟩
+    · cases h
+  | vPhase hd p =>
+    simp only [World.step] at h
+    split at h
+    · split at h
+      · injection h with h; subst h; exact ⟨[], by simp⟩
+      · cases h
     · cases h
   | save => injection h with h; subst h; exact ⟨[w.snapshot], rfl⟩
   | restore k =>
@@ -1268,5 +1289,91 @@ theorem restore_spec {w : World} (hw : WF w) {k : Nat} {d : Snap} (hk : w.snaps[
   · simp only [World.obs, World.setP, World.setT, World.temp, World.pres, if_true]
     rw [Obs.mk.injEq]
     exact ⟨hm, hph, hv, rfl, rfl⟩
+
+
+/-! ### `reduce_phases` / `as_stream` keep a place for every non-empty phase -/
+
+/-- the lower-case letter of the group (g, l/L, s/S) of a phase -/
+def Ph.grp : Ph → Ph
+  | .L => .l | .l => .l | .S => .s | .s => .s | .g => .g
+
+theorem dest_isSome_of_grp {t : List Ph} {p : Ph} (h : p.grp ∈ t) : (dest t p).isSome = true := by
+  cases p <;> simp [Ph.grp] at h <;> simp [dest, Ph.flip, h] <;>
+    (split <;> simp)
+
+theorem grp_mem_phaseString {w : World} {x : Ph × Nat} (hx : x ∈ w.s.pr) (he : w.isEmptyRow x.2 = false) :
+    x.1.grp ∈ w.phaseString := by
+  unfold World.phaseString
+  simp only [List.mem_append]
+  have key : ∀ grp : List Ph, x.1 ∈ grp →
+      (w.s.pr.any fun y => grp.contains y.1 && !w.isEmptyRow y.2) = true := by
+    intro grp hg
+    rw [List.any_eq_true]
+    exact ⟨x, hx, by simp [hg, he]⟩
+  cases hp : x.1 with
+  | g => left; left; rw [hp] at key; rw [if_pos (key [.g] (by simp))]; simp [Ph.grp]
+  | l => left; right; rw [hp] at key; rw [if_pos (key [.l, .L] (by simp))]; simp [Ph.grp]
+  | L => left; right; rw [hp] at key; rw [if_pos (key [.l, .L] (by simp))]; simp [Ph.grp]
+  | s => right; rw [hp] at key; rw [if_pos (key [.s, .S] (by simp))]; simp [Ph.grp]
+  | S => right; rw [hp] at key; rw [if_pos (key [.s, .S] (by simp))]; simp [Ph.grp]
+
+theorem covers_self (w : World) : Covers w w.s.phases := by
+  intro x hx _
+  have hm : x.1 ∈ w.s.phases := List.mem_map.2 ⟨x, hx, rfl⟩
+  rw [dest_of_mem hm]; rfl
+
+theorem setPhases_covers_of_grp {w w' : World} {ls : List Ph} (h : w.setPhases ls = .ok w')
+    (hg : ∀ x ∈ w.s.pr, w.isEmptyRow x.2 = false → x.1.grp ∈ ls) : Covers w w'.s.phases := by
+  rcases setPhases_cases h with ⟨q, hq, _, rfl⟩ | ⟨q, hq, _, rfl⟩ | ⟨_, _, _, rfl⟩ | ⟨_, _, h⟩
+  · intro x hx he
+    apply dest_isSome_of_grp
+    have := mem_phaseTuple.2 (hg x hx he)
+    rw [hq] at this
+    simpa [World.toSingle, Strm.phases] using this
+  · intro x hx he
+    apply dest_isSome_of_grp
+    have := mem_phaseTuple.2 (hg x hx he)
+    rw [hq] at this
+    have hq' : x.1.grp = q := by simpa using this
+    rw [relabel_phases, hq']
+    exact List.mem_map.2 ⟨x, hx, rfl⟩
+  · exact covers_self _
+  · rw [toMulti_phases h]; exact toMulti_covers h
+
+theorem setPhase_covers_of_grp {w w' : World} {ls : List Ph} (h : w.setPhase ls = .ok w')
+    (hm : w.s.multi = true)
+    (hg : ∀ x ∈ w.s.pr, w.isEmptyRow x.2 = false → x.1.grp ∈ ls) : Covers w w'.s.phases := by
+  rcases setPhase_cases h with ⟨_, q, hq, rfl⟩ | ⟨_, _, h⟩ | ⟨hm', _⟩
+  · intro x hx he
+    apply dest_isSome_of_grp
+    have := hg x hx he
+    rcases hq with ⟨rfl, _⟩ | rfl
+    · cases this
+    · simpa [World.toSingle, Strm.phases] using this
+  · exact setPhases_covers_of_grp h hg
+  · rw [hm] at hm'; cases hm'
+
+theorem reduce_covers {w w' : World} (h : w.reduce = .ok w') : Covers w w'.s.phases := by
+  unfold World.reduce at h
+  split at h
+  · rename_i hm
+    exact setPhase_covers_of_grp h hm (fun x hx he => grp_mem_phaseString hx he)
+  · injection h with h; subst h
+    exact covers_self w
+
+theorem asStream_covers {w w' : World} (h : w.asStream = .ok w') : Covers w w'.s.phases := by
+  unfold World.asStream at h
+  split at h
+  · rename_i hm
+    split at h
+    · rename_i q hq
+      exact setPhase_covers_of_grp h hm (fun x hx he => hq ▸ grp_mem_phaseString hx he)
+    · rename_i hq
+      exact setPhase_covers_of_grp h hm (fun x hx he => by
+        have := grp_mem_phaseString hx he
+        rw [hq] at this; cases this)
+    · cases h
+  · injection h with h; subst h
+    exact covers_self w
 
 end ThermoVerif.Phases
